@@ -15,6 +15,8 @@ import (
 	"testing"
 
 	"github.com/wokdav/gopki/generator/cert"
+	"github.com/wokdav/gopki/generator/db"
+	"github.com/wokdav/gopki/generator/db/filesystem"
 	"pgregory.net/rapid"
 
 	"verif/harness/core"
@@ -270,6 +272,52 @@ func checkC17File(c c17File) *core.Failure {
 		got, err := xref.ParsePKCS8(core.ParseArtifact(out.Bytes()).KeyDER)
 		if err != nil || !got.Same(want) {
 			return core.Failf("C17/file-key-differs", "key read from file differs (%v)", err)
+		}
+	}
+	// the same objects stored through the filesystem database and read by a database opened afresh: whatever
+	// combination was stored is what the file holds
+	if len(c.Order) > 0 {
+		ent := core.Entity{File: "store/e.yaml", Subject: []core.RDN{{Key: "CN", Value: "stored"}}}
+		d := core.NewDir()
+		d.Put(ent.File, ent.Render())
+		dbase := filesystem.NewFilesystemDatabase(&core.MemFS{D: d})
+		if err := dbase.Open(); err != nil {
+			return core.Failf("C17/store-open", "%v", err)
+		}
+		if err := dbase.PutBuildArtifact("e", db.BuildArtifact{Certificate: pc.Certificate, PrivateKey: pc.PrivateKey, Request: pc.Request}); err != nil {
+			return core.Failf("C17/store-failed", "PutBuildArtifact (order=%v): %v", c.Order, err)
+		}
+		dbase.Close()
+		f := d.Files["store/e.pem"]
+		if f == nil {
+			return core.Failf("C17/store-not-written", "PutBuildArtifact reported success for %v but no artifact file exists", c.Order)
+		}
+		a := core.ParseArtifact(f.Data)
+		if (a.CertDER != nil) != has("cert") || (a.KeyDER != nil) != has("key") || (a.CSRDER != nil) != has("csr") {
+			return core.Failf("C17/store-objects", "stored %v, the file holds cert=%v key=%v csr=%v", c.Order, a.CertDER != nil, a.KeyDER != nil, a.CSRDER != nil)
+		}
+		if a.CertDER != nil && !bytes.Equal(a.CertDER, c.CertDER) || a.CSRDER != nil && !bytes.Equal(a.CSRDER, c.CSRDER) {
+			return core.Failf("C17/store-objects", "stored %v: certificate or request bytes differ in the file", c.Order)
+		}
+		if a.KeyDER != nil {
+			want, err1 := xref.ParsePKCS8(c.KeyDER)
+			got, err2 := xref.ParsePKCS8(a.KeyDER)
+			if err1 == nil && (err2 != nil || !got.Same(want)) {
+				return core.Failf("C17/store-key-differs", "stored key differs in the file (%v)", err2)
+			}
+		}
+		again := filesystem.NewFilesystemDatabase(&core.MemFS{D: d})
+		if err := again.Open(); err != nil {
+			return core.Failf("C17/store-reopen", "%v", err)
+		}
+		defer again.Close()
+		back, err := again.GetBuildArtifact("e")
+		if err != nil || back == nil {
+			return core.Failf("C17/store-reopen", "GetBuildArtifact: %v", err)
+		}
+		// (beside a private key the database has no use for a request: whether it keeps one in memory then is its own business)
+		if (back.Certificate != nil) != has("cert") || (back.PrivateKey != nil) != has("key") || !has("key") && (back.Request != nil) != has("csr") {
+			return core.Failf("C17/store-objects", "stored %v, a fresh database reads cert=%v key=%v csr=%v", c.Order, back.Certificate != nil, back.PrivateKey != nil, back.Request != nil)
 		}
 	}
 	return nil
